@@ -2,9 +2,11 @@
     (1) the float codes under which times / qpm are stored decode to the float they stand for, the
         integer order on codes is the order on times, and code 0 is the only zero;
     (2) tempo-relative quantization gives the step nearest to the EXACT position t*spq*qpm/60;
-    (3) stretch invariance on floats. *)
+    (3) stretch invariance on floats;
+    (4) the tempo-relative resolution is the correctly rounded quotient, and exact ties of the exact
+        tempo-relative position round up. *)
 From Coq Require Import ZArith Reals Floats Lia Lra.
-From Flocq Require Import Core BinarySingleNaN PrimFloat Relative.
+From Flocq Require Import Core BinarySingleNaN PrimFloat Relative Ulp.
 From NS Require Import Base.FloatBridge Gen.G01 Model.Quantize Proofs.QuantizeFloat.
 Open Scope R_scope.
 
@@ -428,4 +430,154 @@ Proof.
   intros H1 H2. split; [intros ->; reflexivity|]. intros E.
   pose proof (proj2 (code_order_iff c1 c2 H1 H2) ltac:(rewrite E; apply Rle_refl)).
   pose proof (proj2 (code_order_iff c2 c1 H2 H1) ltac:(rewrite E; apply Rle_refl)). lia.
+Qed.
+
+(** * Tempo-relative quantization: correctly rounded resolution, exact ties *)
+Local Close Scope Z_scope.
+Local Open Scope R_scope.
+(** when the int * float product is exact, steps_per_quarter * qpm / 60.0 is the CORRECTLY ROUNDED
+    value of the exact quotient (one rounding) *)
+Theorem sps_rel_correctly_rounded (spq : Z) (qpm : PrimFloat.float) :
+  (1 <= spq <= 1024)%Z -> fin qpm -> 1 <= R_of qpm <= 1024 ->
+  generic_format radix2 fexp (IZR spq * R_of qpm) ->
+  R_of (sps_rel spq qpm) = rnd (IZR spq * R_of qpm / 60) /\ fin (sps_rel spq qpm).
+Proof.
+  intros Hs Fq [Q0 Q1] G.
+  destruct (f_of_Z_R spq ltac:(lia)) as [Es Fs]. destruct sixty_R as [E60 F60].
+  assert (S0 : 1 <= IZR spq <= 1024) by (split; [apply (IZR_le 1)|apply (IZR_le _ 1024)]; lia).
+  assert (P0 : 1 <= IZR spq * R_of qpm <= 1024 * 1024) by nra.
+  unfold sps_rel.
+  destruct (mul_R (f_of_Z spq) qpm 20 Fs Fq ltac:(lia)) as [Em Fm].
+  { rewrite Es, Rabs_pos_eq by lra. replace (bpow radix2 20) with (1024 * 1024) by (cbn; lra). lra. }
+  rewrite Es in Em. rewrite round_generic in Em by (auto with typeclass_instances).
+  destruct (div_R (f_of_Z spq * qpm)%float 60%float 20 Fm F60) as [Ed Fd].
+  { rewrite E60. lra. } { lia. }
+  { rewrite Em, E60, Rabs_pos_eq by (apply Rmult_le_pos; lra).
+    replace (bpow radix2 20) with (1024 * 1024) by (cbn; lra). lra. }
+  rewrite Em, E60 in Ed. split; assumption.
+Qed.
+
+(** Exact ties of the tempo-relative position round up.
+    x = spq*qpm/60 exact; t*x = k + 1/2 exactly.  The one unavoidable rounding of x moves the
+    product by at most t*ulp(x)/2; as long as that is less than half the gap below k + 1/2 the
+    float product is k + 1/2 or above, and the result is k + 1. *)
+Theorem q2s_rel_tie_up t spq qpm k :
+  fin t -> (1 <= spq <= 1024)%Z -> fin qpm -> 1 <= R_of qpm <= 1024 ->
+  generic_format radix2 fexp (IZR spq * R_of qpm) ->
+  0 <= R_of t <= bpow radix2 40 -> (0 <= k < 2 ^ 40)%Z ->
+  let x := IZR spq * R_of qpm / 60 in
+  let y := IZR k + / 2 in
+  R_of t * x = y ->
+  R_of t * ulp radix2 fexp x < y - pred radix2 fexp y ->
+  q2s t (sps_rel spq qpm) = (k + 1)%Z.
+Proof.
+  intros Ft Hs Fq Hq G [T0 T1] Hk x y Exy Hgap.
+  destruct (sps_rel_correctly_rounded spq qpm Hs Fq Hq G) as [Es Fs]. fold x in Es.
+  destruct (sps_rel_R spq qpm Hs Fq Hq) as (_ & [S0 S1] & Er). cbv zeta in Er. fold x in Er.
+  set (s := sps_rel spq qpm) in *.
+  assert (X0 : 0 < x).
+  { unfold x. assert (1 <= IZR spq) by (apply (IZR_le 1); lia). apply Rmult_lt_0_compat; [|lra]. nra. }
+  assert (K0 : 0 <= IZR k < bpow radix2 40).
+  { split. apply IZR_le; lia. change (bpow radix2 40) with (IZR (2 ^ 40)). apply IZR_lt; lia. }
+  assert (Y0 : / 2 <= y) by (unfold y; lra).
+  set (z := R_of t * R_of s).
+  (* half-ulp error of the resolution *)
+  pose proof (error_le_half_ulp radix2 fexp (fun n => negb (Z.even n)) x) as Eu. rewrite <- Es in Eu.
+  apply Rabs_le_inv in Eu.
+  assert (Z1 : (y + pred radix2 fexp y) / 2 < z).
+  { unfold z. replace (R_of t * R_of s) with (y + R_of t * (R_of s - x)) by (rewrite <- Exy; ring).
+    assert (- (R_of t * (/ 2 * ulp radix2 fexp x)) <= R_of t * (R_of s - x)).
+    { replace (- (R_of t * (/ 2 * ulp radix2 fexp x))) with (R_of t * - (/ 2 * ulp radix2 fexp x)) by ring.
+      apply Rmult_le_compat_l; lra. }
+    lra. }
+  assert (Fy : generic_format radix2 fexp y).
+  { unfold y. replace (IZR k + / 2) with (IZR (2 * k + 1) * / 2) by (rewrite plus_IZR, mult_IZR; lra).
+    apply format_half_int. lia. }
+  pose proof (round_N_ge_midp radix2 fexp (fun n => negb (Z.even n)) y z Fy Z1) as L1.
+  (* upper side: the relative error bound *)
+  destruct bpow_m51 as ([U0 U1] & U50 & _). set (U := bpow radix2 (-51)) in *.
+  apply Rabs_le_inv in Er.
+  assert (Z2 : z <= y + U * y).
+  { unfold z. replace (y + U * y) with (R_of t * (x + U * x)) by (rewrite <- Exy; ring).
+    apply Rmult_le_compat_l; lra. }
+  assert (Z0 : 0 <= z) by (unfold z; apply Rmult_le_pos; lra).
+  assert (B40 : bpow radix2 40 * bpow radix2 20 = bpow radix2 60) by (rewrite <- bpow_plus; reflexivity).
+  assert (Zb : z <= bpow radix2 60).
+  { unfold z. rewrite <- B40. apply Rmult_le_compat; lra. }
+  rewrite (q2s_R t s Ft Fs) by (fold z; rewrite Rabs_pos_eq; lra). fold z.
+  pose proof (q2s_value_close z Z0) as C. rewrite U50 in C. apply Rabs_lt_inv in C.
+  set (v := rnd (rnd z + / 2)) in *.
+  assert (V1 : IZR (k + 1) <= v).
+  { unfold v. apply round_ge_generic; auto with typeclass_instances.
+    apply format_IZR_small. lia. rewrite plus_IZR. unfold y in L1. lra. }
+  (* U * y is tiny: y < 2^41, U = 2^-51 *)
+  assert (UY : U * y <= / 512).
+  { assert (y <= bpow radix2 41).
+    { unfold y. replace 41%Z with (40 + 1)%Z by lia. rewrite bpow_double. pose proof (bpow_ge_1 40 ltac:(lia)). lra. }
+    apply Rle_trans with (U * bpow radix2 41). apply Rmult_le_compat_l; lra.
+    unfold U. rewrite <- bpow_plus. replace (/ 512) with (bpow radix2 (-9)) by (cbn; lra). apply bpow_le. lia. }
+  assert (UZ : U * z <= / 256).
+  { apply Rle_trans with (U * (y + U * y)). apply Rmult_le_compat_l; lra.
+    assert (U * (U * y) <= U * y). { replace (U * y) with (1 * (U * y)) at 2 by ring. apply Rmult_le_compat_r; [|lra]. apply Rmult_le_pos; lra. }
+    lra. }
+  assert (V2 : v < IZR (k + 1) + 1).
+  { rewrite plus_IZR. unfold y in *. lra. }
+  assert (V0 : 0 <= v) by (rewrite plus_IZR in V1; lra).
+  rewrite Ztrunc_floor by exact V0. apply Zfloor_imp. rewrite (plus_IZR (k + 1)). lra.
+Qed.
+
+(** the case of an exactly representable resolution: no caveat at all *)
+Theorem q2s_rel_tie_up_exact t spq qpm k :
+  fin t -> (1 <= spq <= 1024)%Z -> fin qpm -> 1 <= R_of qpm <= 1024 ->
+  generic_format radix2 fexp (IZR spq * R_of qpm) ->
+  generic_format radix2 fexp (IZR spq * R_of qpm / 60) ->
+  (0 <= k < 2 ^ 51)%Z ->
+  R_of t * (IZR spq * R_of qpm / 60) = IZR k + / 2 ->
+  q2s t (sps_rel spq qpm) = (k + 1)%Z.
+Proof.
+  intros Ft Hs Fq Hq G Gx Hk E.
+  destruct (sps_rel_correctly_rounded spq qpm Hs Fq Hq G) as [Es Fs].
+  rewrite round_generic in Es by (auto with typeclass_instances).
+  apply q2s_tie_up; try assumption. rewrite Es. exact E.
+Qed.
+
+(** the hypotheses of [q2s_rel_tie_up] are satisfiable with a NON-representable resolution:
+    3 steps per quarter at 72 qpm (3.6 steps per second), t = 3.75 s = exactly 13.5 steps -> step 14 *)
+Example q2s_rel_tie_up_nonvacuous :
+  let t := fdec 4615626668101337088 in let qpm := f_of_Z 72 in let spq := 3%Z in let k := 13%Z in
+  fin t /\ fin qpm /\ 1 <= R_of qpm <= 1024 /\
+  generic_format radix2 fexp (IZR spq * R_of qpm) /\
+  0 <= R_of t <= bpow radix2 40 /\
+  R_of t * (IZR spq * R_of qpm / 60) = IZR k + / 2 /\
+  R_of t * ulp radix2 fexp (IZR spq * R_of qpm / 60) < (IZR k + / 2) - pred radix2 fexp (IZR k + / 2) /\
+  q2s t (sps_rel spq qpm) = 14%Z.
+Proof.
+  cbv zeta.
+  destruct (f_of_Z_R 72 ltac:(lia)) as [Eq Fq].
+  assert (Et : R_of (fdec 4615626668101337088) = 15 / 4).
+  { rewrite R_of_SF.
+    replace (Prim2SF (fdec 4615626668101337088)) with (S754_finite false 8444249301319680 (-51))
+      by (vm_compute; reflexivity).
+    unfold SF2R, F2R. cbn -[IZR]. lra. }
+  rewrite Eq, Et.
+  assert (B40 : 1024 <= bpow radix2 40).
+  { replace 1024 with (bpow radix2 10) by (cbn; lra). apply bpow_le. lia. }
+  assert (Ux : ulp radix2 fexp (3 * 72 / 60) = bpow radix2 (-51)).
+  { rewrite ulp_neq_0 by lra. unfold cexp. rewrite (mag_unique radix2 _ 2).
+    - reflexivity.
+    - rewrite Rabs_pos_eq by lra. cbn. lra. }
+  assert (Uy : ulp radix2 fexp (13 + / 2) = bpow radix2 (-49)).
+  { rewrite ulp_neq_0 by lra. unfold cexp. rewrite (mag_unique radix2 _ 4).
+    - reflexivity.
+    - rewrite Rabs_pos_eq by lra. cbn. lra. }
+  assert (Py : pred radix2 fexp (13 + / 2) = 13 + / 2 - bpow radix2 (-49)).
+  { rewrite pred_eq_pos by lra. unfold pred_pos. rewrite (mag_unique radix2 _ 4).
+    - rewrite Req_bool_false. rewrite Uy. reflexivity. cbn. lra.
+    - rewrite Rabs_pos_eq by lra. cbn. lra. }
+  split; [reflexivity|]. split; [exact Fq|]. split; [lra|].
+  split. { replace (3 * 72) with (IZR 216) by lra. apply format_IZR_small. cbn. lia. }
+  split; [lra|]. split; [lra|]. split.
+  - rewrite Ux, Py. replace (-49)%Z with (2 + (-51))%Z by lia. rewrite bpow_plus.
+    replace (bpow radix2 2) with 4 by (cbn; lra). pose proof (bpow_gt_0 radix2 (-51)). lra.
+  - vm_compute. reflexivity.
 Qed.
